@@ -91,6 +91,8 @@ def resolve_level_aliases(body, rules, fname):
         seg = re.sub(r"computeExactError\(\s*%s\s*," % name, "computeExactError(%s," % expr, seg)
         seg = re.sub(r"(?m)^(\s*)%s\.(\w+)\(\)\s*=\s*%s\.(\w+)\(\)\s*;" % (name, name),
                      lambda q: "%svec_copy(HV(%s, %s), HV(%s, %s));" % (q.group(1), expr, VEC_ACC[q.group(2)], expr, VEC_ACC[q.group(3)]), seg)
+        seg = re.sub(r"std::swap\(\s*%s\.(\w+)\(\)\s*,\s*%s\.(\w+)\(\)\s*\)" % (name, name),
+                     lambda q: "vec_swap(HV(%s, %s), HV(%s, %s))" % (expr, VEC_ACC[q.group(1)], expr, VEC_ACC[q.group(2)]), seg)
         seg = re.sub(r"\b%s\.(%s)\(" % (name, LEVEL_OPS), lambda q: "Level_%s(%s, " % (q.group(1), expr), seg)
         seg = re.sub(r"\b%s\.(rhs|solution|residual|error_correction)\(\)" % name,
                      lambda q: "HV(%s, %s)" % (expr, VEC_ACC[q.group(1)]), seg)
